@@ -39,7 +39,9 @@ def validate(ctx, items):
         o = r["obs"]
         if o["snerr"] > 0:
             rejected += 1
-            if not str(it["id"]).startswith("fix"):     # a fixture may use syntax of a plugin (===): not in the subset
+            # a fixture may use syntax of a plugin (===), a literal shape of MC_C07 may not be a literal at all (`7e+`):
+            # not in the subset; C07 / C02 judge acceptance of literals and programs
+            if not str(it["id"]).startswith("fix") and not it.get("literal"):
                 fails.append((it, "subset_program_rejected", dict(err0=o.get("serr0"))))
             continue
         if any(x.get("panic") for x in o["outs"]):
@@ -100,6 +102,14 @@ def validate(ctx, items):
     return fails
 
 
+HAZ = ("LPAREN", "LBRACKET", "MINUS", "PLUS", "INCREMENT", "DECREMENT", "RAW_STRING", "DIVIDE")
+
+
+def _hazard(e):
+    t = e["toks"]
+    return any(t[j].get("nl") and t[j]["ty"] in HAZ and t[j - 1]["ty"] == "SEMICOLON" for j in range(1, len(t)))
+
+
 def run(ctx):
     quick = ctx.tier == "quick"
     exported, _ = c02.mc_export(ctx, "MC_C01", "MC_C01_quick.cfg" if quick else "MC_C01_thorough.cfg")
@@ -107,10 +117,22 @@ def run(ctx):
         base = [e for e in exported if e["mouts"]]
         rest = [e for e in exported if not e["mouts"]]
         ctx.rng.shuffle(rest)
+        rest.sort(key=lambda e: 0 if _hazard(e) else 1)      # (stable) hazard programs are kept whatever the sample
         exported = base + rest[:24000 - len(base)]
+    # programs in which a statement that begins with a bracket / sign / backtick follows `;` + line break:
+    # where a comment in that gap matters (the semicolon policy of the pretty printer) - always spelled
+    # with a comment there, whatever the sample
+    hazard = _hazard
+    forced = set()
+    nh = 0
+    for n, e in enumerate(exported):
+        if not e["mouts"] and nh < (4000 if quick else 40000) and hazard(e):
+            forced.add(n)
+            nh += 1
+    ctx.cov["hazard_programs_with_comment_gap"] = nh
     items, seen = [], set()
     for n, e in enumerate(exported):
-        style = "plain" if e["mouts"] else STYLES[n % len(STYLES)]
+        style = "plain" if e["mouts"] else ("comment" if n in forced else STYLES[n % len(STYLES)])
         text = render.toks_to_text(e["toks"], ctx.rng, style)
         if text in seen:
             continue
@@ -120,7 +142,7 @@ def run(ctx):
     lits, _ = c02.mc_export(ctx, "MC_C07", "MC_C07_quick.cfg")
     ctx.rng.shuffle(lits)
     for n, e in enumerate(lits[:2000 if quick else 12000]):
-        items.append(dict(id="l%d" % n, text=bytes(e["src"]).decode("latin-1"), mouts=None))
+        items.append(dict(id="l%d" % n, text=bytes(e["src"]).decode("latin-1"), mouts=None, literal=True))
     from props import c06
     for f in c06.fixture_items():       # the repository's fixtures print through console.log
         items.append(dict(id=f["id"], text=f["text"], mouts=None))
